@@ -62,7 +62,7 @@ class C07(PropertyCheck):
     finding_keys = {}
 
     def generate(self, rng, tier):
-        n_s, n_r, n_d, n_p = (60, 40, 40, 16) if tier == "quick" else (1500, 400, 500, 200)
+        n_s, n_r, n_d, n_p = (300, 160, 120, 30) if tier == "quick" else (4000, 1500, 1200, 300)
         cases = []
         for _ in range(n_s):
             n = rng.choice([2, 3, 4, 5, 8, 12])
@@ -78,8 +78,14 @@ class C07(PropertyCheck):
             kind = rng.choice(["event", "block"])
             on, du, am = _events(rng, n, tr, kind)
             hrf = rng.choice(HRFS + ["fir", "fir"])
+            if hrf != "fir" and NK[hrf] > 1:
+                n = rng.choice([6, 9, 12])   # orthogonalisation by pinv is ill-conditioned on 3-4 rows
+            os_ = rng.choice([1, 2, 4]) if hrf == "fir" else rng.choice([2, 4, 16])
+            if rng.random() < 0.5:   # shift-testable: every onset strictly inside an hr cell, early in the run
+                dt = tr / os_
+                on = [(rng.randrange(0, max(1, (n // 2) * os_)) + 0.5) * dt for _ in on]
             cases.append({"kind": "regressor", "n": n, "tr": tr, "hrf": hrf,
-                          "os": rng.choice([1, 2, 4]) if hrf == "fir" else rng.choice([2, 4, 16]),
+                          "os": os_,
                           "fir_delays": sorted(rng.sample(range(0, 5), rng.choice([1, 2, 3]))),
                           "onsets": on, "durs": du, "amps": am, "shift": rng.choice([1, 2, 3])})
         for _ in range(n_d):
@@ -95,7 +101,10 @@ class C07(PropertyCheck):
             cases.append({"kind": "dmtx", "n": n, "tr": tr, "hrf": rng.choice(HRFS), "ptype": kind,
                           "conds": evs, "fir_delays": sorted(rng.sample(range(0, 6), rng.choice([1, 2, 4]))),
                           "drift": rng.choice(["polynomial", "cosine", "blank"]),
-                          "order": rng.choice([0, 1, 2, 3, 5]), "hfcut": rng.choice([128, 32, 16, 8, 5]),
+                          "order": rng.choice([0, 1, 2, 3, 5]),
+                          # cut-off periods below the Nyquist period 2*TR are excluded: they ask for more
+                          # cosine columns than scans, for which no orthonormal family exists
+                          "hfcut": rng.choice([h for h in [128, 32, 16, 8, 5, 2 * tr, 3 * tr] if h >= 2 * tr]),
                           "nadd": rng.choice([0, 0, 1, 3]), "named_add": rng.random() < 0.5,
                           "amp_none": rng.random() < 0.2})
         for _ in range(n_p):
@@ -158,8 +167,18 @@ class C07(PropertyCheck):
         _, hr = hm._sample_condition(cond, ft, os_, -24)
         ev = " ".join(f"{fr(o)} {fr(d)} {fr(a)}" for o, d, a in zip(*cond))
         ks = " ".join(plist(h) for h in kernels)
-        line = (f"compute {plist(hr)} {len(cond[0])} {ev} {len(kernels)} {ks} {plist(ft)} "
-                f"{0 if hrf == 'fir' else 1}")
+        # conditioning of the un-orthogonalised columns (built from the implementation's own pieces):
+        # _orthogonalize projects with pinv, whose rcond cut-off an exact model cannot mimic on
+        # (nearly) rank-deficient columns; there the model is compared before orthogonalisation.
+        hr_reg, _ = hm._sample_condition(cond, ft, os_, -24)
+        conv = np.array([np.convolve(hr_reg, h)[:hr_reg.size] for h in kernels])
+        pre = np.atleast_2d(hm._resample_regressor(conv, hr, ft))
+        pre = pre if pre.shape[0] == c["n"] else pre.T
+        sv = np.linalg.svd(pre, compute_uv=False)
+        well = hrf == "fir" or len(kernels) == 1 or (sv.max() > 0 and sv.min() / sv.max() > 1e-3)
+        orth_flag = 1 if (hrf != "fir" and well) else 0
+        target = creg if (well or hrf == "fir") else pre
+        line = (f"compute {plist(hr)} {len(cond[0])} {ev} {len(kernels)} {ks} {plist(ft)} {orth_flag}")
         fail = None
         if len(names) != creg.shape[1] or len(set(names)) != len(names):
             fail = f"compute_regressor: {creg.shape[1]} columns but names {names}"
@@ -190,7 +209,8 @@ class C07(PropertyCheck):
                not np.allclose(s[:m], 0, atol=1e-12):
                 fail = (f"delaying onsets by {m} scans does not delay the {hrf} regressor by {m} rows")
         tags = ["regressor", "hrf=" + hrf.replace(" ", "_")] + (["shift-tested"] if inside else [])
-        return {"lines": [line], "impl": [("cols", creg.T.tolist())], "oracle": fail,
+        tags.append("orth-compared" if orth_flag else "pre-orth-compared")
+        return {"lines": [line], "impl": [("cols", target.T.tolist())], "oracle": fail,
                 "nontrivial": len(c["onsets"]) >= 2 or hrf == "fir" or NK[hrf] > 1,
                 "tags": tags, "mutated": mut}
 
@@ -294,9 +314,13 @@ class C07(PropertyCheck):
             mcols = [parse_rats(s) for s in model_out.split(" | ")] if model_out.strip() else []
             if len(mcols) != len(val):
                 return f"column count impl={len(val)} model={len(mcols)}"
+            # orthogonalised columns: the implementation projects with pinv, so the error is relative
+            # to the size of the un-orthogonalised data, i.e. of the largest column
+            big = max((abs(float(x)) for col in mcols for x in col), default=1.0)
             for j, (a, b) in enumerate(zip(val, mcols)):
                 scale = max(1.0, max((abs(float(x)) for x in b), default=1.0))
-                if not all_close(a, b, 1e-8, 1e-8 * scale):
+                tol = 1e-8 * scale if len(mcols) == 1 else 1e-6 * max(big, 1e-3)
+                if not all_close(a, b, 1e-8, tol):
                     return f"column {j}: impl={a[:6]} model={[float(x) for x in b[:6]]}"
             return None
         if kind == "names":
